@@ -112,7 +112,8 @@ Section Translate.
         | Some c =>
             match field_kind sc c attr_name, field_kind sc c attr_id_ with
             | None, None => RReject                      (* DomainExtractionError: the sample cannot be resolved to a row *)
-            | _, _ => RUnmod                             (* looked up in the database by name / id_ *)
+            | Some _, None => RReject                    (* resolved by name to a DAO instance; column <op> instance: ArgumentError -> UnsupportedOperatorError *)
+            | _, _ => RUnmod                             (* looked up in the database by id_ *)
             end
         end
     end.
@@ -127,6 +128,15 @@ Section Translate.
     | _ => false
     end.
   Definition is_var (x : operand) : bool := match x with OVar _ => true | _ => false end.
+  (* a bare variable whose class has a name (and no id_): DomainValueExtractor finds its first domain element's row by name *)
+  Definition named_var (x : operand) : bool :=
+    match x with
+    | OVar v => match assoc v vars with
+                | Some c => match field_kind sc c attr_name, field_kind sc c attr_id_ with Some _, None => true | _, _ => false end
+                | None => false
+                end
+    | _ => false
+    end.
   (* _check_relationship_operands: true = passes *)
   Definition rel_check (eqne : bool) (l r : operand) : bool :=
     (negb (is_rel l) || ((is_rel r || is_var r) && eqne)) &&
@@ -182,6 +192,16 @@ Section Translate.
     | Some res => res
     | None =>
         if negb (rel_check (eqne op) l r) then RReject else
+        if named_var l then
+          (* the variable is resolved by name to a DAO instance; instance == column is Python's False: WHERE false (C07-n) *)
+          match op with
+          | OEq => match toperand st r with
+                   | ROk _ st2 => ROk (Some SFalse) st2
+                   | RReject => RReject | RCrash => RCrash | RUnmod => RUnmod
+                   end
+          | _ => RUnmod
+          end
+        else
         match toperand st l with
         | ROk a st1 =>
             match toperand st1 r with
@@ -254,6 +274,14 @@ Section Translate.
         | RReject => RReject | RCrash => RCrash | RUnmod => RUnmod
         end
     | CTruth _ => RReject
+    | CInSet cs (OAttr v chain) =>
+        (* _handle_contains_operator unwraps list / tuple containers only: the set itself is bound as one parameter (C07-m) *)
+        if is_rel (OAttr v chain) then RReject else
+        match tattr st v chain with
+        | ROk a st1 => ROk (Some (SIn a [VObjLit])) st1
+        | RReject => RReject | RCrash => RCrash | RUnmod => RUnmod
+        end
+    | CInSet _ _ => RUnmod
     end.
 End Translate.
 
@@ -261,7 +289,7 @@ Inductive tres := TOk (s : sql) | TReject | TCrash | TUnmod.
 
 (* EQLTranslator.translate *)
 Definition translate (sc : schema) (q : query) : tres :=
-  if q_setof q then TCrash else          (* select_like.selected_variable: AttributeError on a SetOf node (C07-k) *)
+  if q_setof q then TReject else         (* not an entity(...) query: UnsupportedQueryTypeError *)
   match assoc (q_sel q) (q_vars q) with
   | None => TReject
   | Some root =>
@@ -447,6 +475,7 @@ Fixpoint cond_operands (c : cond) : list operand :=
   | CAnd p q | COr p q => cond_operands p ++ cond_operands q
   | CNot p => cond_operands p
   | CTruth o => [o]
+  | CInSet _ it => [it]
   end.
 Fixpoint has_not (c : cond) : bool :=
   match c with CNot _ => true | CAnd p q | COr p q => has_not p || has_not q | _ => false end.
@@ -523,6 +552,13 @@ Fixpoint has_or_join (c : cond) : bool :=      (* an equality join below an or_:
   | CNot p => has_or_join p
   | _ => false
   end.
+Fixpoint has_inset (c : cond) : bool :=
+  match c with
+  | CInSet _ _ => true
+  | CAnd p q | COr p q => has_inset p || has_inset q
+  | CNot p => has_inset p
+  | _ => false
+  end.
 Definition b2z (b : bool) (k : Z) : Z := if b then k else 0.
 Definition classes (sc : schema) (q : query) (w : world) : Z :=
   match q_cond q with
@@ -541,6 +577,8 @@ Definition classes (sc : schema) (q : query) (w : world) : Z :=
       + b2z (has_relrel sc (q_vars q) c) 512
       + b2z (has_or_join c) 1024
       + b2z (q_setof q) 2048
+      + b2z (has_inset c) 4096
+      + b2z (existsb (named_var sc (q_vars q)) ops) 8192
   end.
 
 (* what the harness asks per case: [model; spec; [f07; classes]] *)
